@@ -1,4 +1,5 @@
 """C12 — binomial AND/OR multiply probabilities and are De Morgan duals."""
+from fractions import Fraction as Fr
 from .. import gen as G
 from .common import TRUSTED, ASSUMPTIONS, default_nontrivial, LEVEL_NOTE, TECHNIQUE
 
@@ -33,6 +34,32 @@ def cases(rng, tier):
             x, y, z = G.rand_bop(rng, den), G.rand_bop(rng, den), G.rand_bop(rng, den)
             r = rng.random()
             if r < 0.35:
+                out.append(G.line(rng.choice(["bmul", "bcomul"]), fmt, "B.o", [], x + y))
+            else:
+                out.append(G.line("blaw", fmt, "B.o", [rng.randint(0, 5)], x + y + z))
+        # dyadic masses with base rates at the ends of [0,1]: 0, 2^-k and 3*2^-k far below eps, 1-2^-k up to the last ulp
+        # below 1, and 1 (all exactly representable, so the laws are checked exactly where 1-ax*ay or ax+ay-ax*ay is tiny)
+        kmax_lo, kmax_hi = (300, 52) if fmt == "f64" else (100, 23)
+
+        def end_rate():
+            z = rng.random()
+            if z < 0.12:
+                return Fr(0)
+            if z < 0.24:
+                return Fr(1)
+            if z < 0.62:
+                return Fr(rng.choice([1, 3]), 2 ** rng.randint(8, kmax_lo))
+            return 1 - Fr(1, 2 ** rng.randint(8, kmax_hi))
+        for _ in range(N):
+            den = rng.choice([8, 16, 64])
+            ops3 = []
+            for _k in range(3):
+                w = G.rand_bop(rng, den)
+                if rng.random() < 0.8:
+                    w[3] = end_rate()
+                ops3.append(w)
+            x, y, z = ops3
+            if rng.random() < 0.35:
                 out.append(G.line(rng.choice(["bmul", "bcomul"]), fmt, "B.o", [], x + y))
             else:
                 out.append(G.line("blaw", fmt, "B.o", [rng.randint(0, 5)], x + y + z))
